@@ -24,8 +24,14 @@ LEVEL_TEXT = ("Lean theorems, all data/pattern/start/end/count/bytealigned: the 
               "pattern lengths 1..24, 3x2 bytealigned settings, counts, four classes, self as operand, 8191..8193/20000-bit data.")
 LEVEL_NOTE = ("Trusted: Lean kernel (+propext, Classical.choice, Quot.sound); bitarray's C search/find/tobytes/slicing/count and bytes.find are modelled by "
               "executable list programs proved equal to their documented meaning, the C code itself is not verified; the hand transcription of the Python "
-              "is tied to the code by the differential run only. Known findings: findall('') does not raise; replace(count=0) skips validation.")
+              "is tied to the code by the differential run only.")
 TECHNIQUE = "Lean 4 proof (ALG = brute-force SPEC incl. byte fast path and greedy selection) + exhaustive small-window correspondence"
+
+ASSUMPTIONS = ["`in` is read from doc/bits.rst (Bits.__contains__: 'True if bs can be found in the bitstring') as a search at every bit position, "
+               "whatever options.bytealigned is (the code passes bytealigned=False explicitly)",
+               "negative count arguments and cut(bits <= 0) are outside the property's domain (count in None, 0, 1, 2, ...) and are not generated; "
+               "lsb0 mode belongs to C12"]
+NOT_YET_PROVED = []
 
 OPS8 = ("find", "rfind")
 OPS9 = ("findall", "split")
@@ -294,21 +300,7 @@ def oracle(line, out, extra):
     return None
 
 
-# ---- regions of the known findings (same names as the Lean predicates in Props/C07.lean) -----------------
-def _region_findall_empty(line):
-    f = line.split(SEP)
-    return f[1] == "findall" and _resolve(f[4], unwire(f[3])) == ""
-
-
-def _region_replace_count0(line):
-    f = line.split(SEP)
-    if f[1] != "replace" or f[10] != "0":
-        return False
-    data = unwire(f[3])
-    return _resolve(f[4], data) == "" or _window(len(data), _opt(f[6]), _opt(f[7])) is None
-
-
-REGIONS = {"findall_empty_pattern": _region_findall_empty, "replace_count0_unvalidated": _region_replace_count0}
+REGIONS = {}
 
 
 def nontrivial(line):
@@ -497,6 +489,14 @@ def gen(rng, tier):
         n = rng.choice(lens) if r < 0.85 else rng.choice([47, 48, 49, 63, 64, 65, 71, 72, 73, 127, 128, 129, 255, 256, 257])
         data, pat = _data_and_pat(rng, n)
         a, b = _rand_window(rng, n)
+        w = _window(n, a, b)
+        if w is not None and rng.random() < 0.45 and w[1] - w[0] >= 1:
+            # take the pattern from inside the window (at a byte boundary when there is one) so that the search matches
+            m = min(len(pat), w[1] - w[0])
+            lo, hi = w[0], w[1] - m
+            al = [q for q in range(-(-lo // 8) * 8, hi + 1, 8)]
+            q = rng.choice(al) if al and rng.random() < 0.7 else rng.randint(lo, hi)
+            pat = data[q:q + m]
         op = rng.choice(SEARCH_OPS + ["find", "rfind", "findall", "split", "replace", "cut", "count"])
         cls = rng.choice(CLASS_NAMES)
         if op == "cut":
